@@ -1,3 +1,3 @@
 # memfault-solve-null-constant-term (family solver-numeric-rhs-null-constants): segv
-solve 1 2 2 17 1 1 2 0 1 0 2 1 2 1 0
+solve 1 3 3 8 2 1 2 1 2 1 0 1 0 0 1 0 1 0
 reset
